@@ -8,6 +8,13 @@ var shapingCtors = map[string]ctor{
 	"base.NewTokenResultShouldWait":       {Tag: 2, NilTag: 2, Arg: 0, Typ: "int64"},
 }
 
+// the warm-up calculator's atomic loads: the bucket and the time of the last refill
+var warmupLoads = map[string]hint{
+	"atomic.LoadInt64(&c.storedTokens)":    {"stored", "int64"},
+	"atomic.LoadUint64(&c.lastFilledTime)": {"last_filled", "uint64"},
+}
+var warmupNow = hint{"now", "uint64"}
+
 func init() {
 	targets = append(targets,
 		// ---- C10: ThrottlingChecker ----
@@ -22,5 +29,36 @@ func init() {
 			Acts: map[string]act{
 				"atomic.CompareAndSwapInt64": {Tag: 1, Keep: []int{1, 2}, Ret: hint{"cas_ok", "bool"}}},
 			Ctors: shapingCtors},
+		// NewThrottlingChecker: the ms -> ns conversions of the queueing limit and the statistic interval
+		target{Dir: "core/flow", Func: "NewThrottlingChecker", Name: "throttling_New",
+			Fields: []string{"maxQueueingTimeNs", "statIntervalNs", "lastPassedTime"}},
+
+		// ---- C11: WarmUpTrafficShapingCalculator ----
+		// constructor: cold-factor default, warningToken / maxToken (uint64 truncations), slope
+		target{Dir: "core/flow", Func: "NewWarmUpTrafficShapingCalculator", Name: "warmup_New",
+			Fields: []string{"threshold", "warmUpPeriodInSec", "coldFactor", "warningToken", "maxToken", "slope", "storedTokens", "lastFilledTime"}},
+		// CalculateAllowedTokens: syncToken(previous-window QPS) is action 10; the bucket is loaded afterwards
+		target{Dir: "core/flow", Func: "WarmUpTrafficShapingCalculator.CalculateAllowedTokens", Name: "warmup_CalculateAllowedTokens",
+			Hints: map[string]hint{
+				"c.BoundOwner().boundStat.readOnlyMetric":                 {"", "opaque"},
+				"metricReadonlyStat.GetPreviousQPS(base.MetricEventPass)": {"previous_qps", "float64"},
+				"atomic.LoadInt64(&c.storedTokens)":                       {"stored", "int64"}},
+			Acts: map[string]act{"c.syncToken": {Tag: 10, Keep: []int{0}}}},
+		// coolDownTokens: the refill arithmetic
+		target{Dir: "core/flow", Func: "WarmUpTrafficShapingCalculator.coolDownTokens", Name: "warmup_coolDownTokens",
+			Hints: warmupLoads},
+		// syncToken: once per aligned second; CAS (1), Add (2, result `added`), Store of the bucket (3), Store of the
+		// fill time (4) are recorded in program order; coolDownTokens is inlined
+		target{Dir: "core/flow", Func: "WarmUpTrafficShapingCalculator.syncToken", Name: "warmup_syncToken",
+			Hints: map[string]hint{
+				"util.CurrentTimeMillis()":             warmupNow,
+				"atomic.LoadInt64(&c.storedTokens)":    warmupLoads["atomic.LoadInt64(&c.storedTokens)"],
+				"atomic.LoadUint64(&c.lastFilledTime)": warmupLoads["atomic.LoadUint64(&c.lastFilledTime)"]},
+			Inline: []string{"WarmUpTrafficShapingCalculator.coolDownTokens"},
+			Acts: map[string]act{
+				"atomic.CompareAndSwapInt64": {Tag: 1, Keep: []int{1, 2}, Ret: hint{"cas_ok", "bool"}},
+				"atomic.AddInt64":            {Tag: 2, Keep: []int{1}, Ret: hint{"added", "int64"}},
+				"atomic.StoreInt64":          {Tag: 3, Keep: []int{1}},
+				"atomic.StoreUint64":         {Tag: 4, Keep: []int{1}}}},
 	)
 }
